@@ -91,7 +91,7 @@ def required(tier):
         "mon": ["post:OPA._Ctau", "post:Decomposer.fit", "backend:svd"],
         "cover": [f"kind:{k}" for k in KINDS]
         + [f"solver:{s}" for s in SOLVERS]
-        + ["tau_max:1", "tau_max:n/3", "npca:2", "npca:rank", "nmodes:1", "nmodes:npca", "center:False", "standardize:True", "coslat:True", "weights:True", "spectrum:has_negative"],
+        + ["tau_max:1", "tau_max:n/3", "npca:2", "npca:rank", "nmodes:1", "nmodes:npca", "center:False", "standardize:True", "coslat:True", "weights:True", "spectrum:has_negative", "sample_dims:1", "sample_dims:2", "history:aged", "history:fresh"],
     }
 
 
@@ -191,6 +191,16 @@ def build(case):
     else:
         fdims = ("lat",) if use_lat else ("x",)
     X = xu.make_da(M, fshape, fdims, sample_dim="time")
+    sdims = ("time",)
+    nm = next((k for k in (4, 3, 2, 5) if n % k == 0 and n // k >= 2), None)
+    if case["dseed"] % 4 == 0 and nm:
+        # the time axis split over two sample dimensions, t = year * nm + month, handed over with the axes in the
+        # order (month, year, ...): `dim=("year", "month")` defines the time order, not the array layout
+        ny = n // nm
+        A = M.reshape((ny, nm) + tuple(fshape))
+        X2 = xr.DataArray(A, dims=("year", "month") + tuple(fdims), coords=dict({"year": 1990 + np.arange(ny), "month": 1 + np.arange(nm)}, **{d: X.coords[d] for d in fdims}))
+        X = X2.transpose("month", "year", *fdims)
+        sdims = ("year", "month")
     w_cos = None
     if case["coslat"]:
         wl = oracle.coslat_weights(X.coords["lat"].values)
@@ -200,7 +210,7 @@ def build(case):
     if case["weights"]:
         w_user = rng.uniform(0.4, 2.5, size=p)
         W = xr.DataArray(w_user.reshape(fshape), dims=fdims, coords={dd: X.coords[dd] for dd in fdims})
-    return dict(M=M, X=X, fdims=fdims, fshape=fshape, w_cos=w_cos, w_user=w_user, W=W, phis=phis)
+    return dict(M=M, X=X, fdims=fdims, fshape=fshape, w_cos=w_cos, w_user=w_user, W=W, phis=phis, sdims=sdims)
 
 
 def lag_cov(F, tau):
@@ -242,7 +252,9 @@ def run_case(case, obs):
     b = build(case)
     Mp = oracle.preprocess(b["M"], case["center"], case["standardize"], b["w_cos"], b["w_user"])
 
-    mon.reset()
+    sdims = tuple(b["sdims"])
+    dim = sdims if len(sdims) > 1 else sdims[0]
+    obs.cell(f"sample_dims:{len(sdims)}")
     model = xe.single.OPA(
         n_modes=m,
         tau_max=tau_max,
@@ -253,9 +265,24 @@ def run_case(case, obs):
         solver=case["solver"],
         random_state=case["random_state"],
     )
+    aged = case["dseed"] % 3 == 0
+    obs.cell("history:" + ("aged" if aged else "fresh"))
+    obs.tag(history="aged" if aged else "fresh")
     with warnings.catch_warnings():
         warnings.simplefilter("ignore")
-        model.fit(b["X"], dim="time", weights=b["W"])
+        if aged:
+            # hostile history: the same object was fitted on other data and every accessor was used before
+            try:
+                oth = b["X"].roll({b["X"].dims[0]: 1}, roll_coords=False) * 1.3 + 0.2 * b["X"] * b["X"]
+                model.fit(oth, dim=dim, weights=b["W"])
+                model.components(), model.filter_patterns(), model.scores(), model.decorrelation_time()
+                obs.count("history:prior_fit")
+            except Exception:  # noqa: BLE001
+                obs.count("history:prior_fit_raised")
+                model = xe.single.OPA(n_modes=m, tau_max=tau_max, n_pca_modes=q, center=case["center"], standardize=case["standardize"],
+                                      use_coslat=case["coslat"], solver=case["solver"], random_state=case["random_state"])
+        mon.reset()
+        model.fit(b["X"], dim=dim, weights=b["W"])
     # hook failures are classified below, once the oracle knows the spectrum
     events = mon.drain(obs)
     dec = [e for e in events if e.get("kind") == "backend" and e.get("where") == "Decomposer"]
@@ -266,7 +293,7 @@ def run_case(case, obs):
     obs.nontrivial = bool(q >= 2 and tau_max >= 1)
 
     # ---- public results by label --------------------------------------------------
-    coords = xu.labels(b["X"], ("time",) + tuple(b["fdims"]))
+    coords = xu.labels(b["X"], sdims + tuple(b["fdims"]))
     comps = model.components()
     filt = model.filter_patterns()
     scores = model.scores()
@@ -274,10 +301,10 @@ def run_case(case, obs):
     modes = scores.mode.values
     obs.check("components_dims", set(comps.dims) == set(b["fdims"]) | {"mode"}, f"dims {comps.dims}")
     obs.check("filter_dims", set(filt.dims) == set(b["fdims"]) | {"mode"}, f"dims {filt.dims}")
-    obs.check("scores_dims", set(scores.dims) == {"time", "mode"}, f"dims {scores.dims}")
+    obs.check("scores_dims", set(scores.dims) == set(sdims) | {"mode"}, f"dims {scores.dims}")
     Wc = np.asarray(xu.feature_matrix(comps.sel(mode=modes), b["fdims"], coords), dtype=float)
     Fc = np.asarray(xu.feature_matrix(filt.sel(mode=modes), b["fdims"], coords), dtype=float)
-    S = np.asarray(xu.sample_matrix(scores.sel(mode=modes), ["time"], coords), dtype=float)
+    S = np.asarray(xu.sample_matrix(scores.sel(mode=modes), list(sdims), coords), dtype=float)
     dt = np.asarray(dt_da.sel(mode=modes).values, dtype=float)
     ok = obs.check(
         "n_modes_returned",
